@@ -101,6 +101,15 @@ def run(ctx):
     ser_bad = [(l, unhx(r.split("\t")[1]).decode("utf-8", "replace") if r.startswith("bad\t") else r) for l, r in zip(sl, sres) if r != "ok"]
     # lists of 0..50
     lists = [[]] + [[(rng.choice(names[:10] + ["Doe, John", "a  b"]), rng.choice(addrs[:4])) for _ in range(k)] for k in (1, 2, 3, 7, 50)] * (2 if ctx.tier == "quick" else 40)
+    # lists that hold the same mailbox more than once (adjacent or not), from names outside every known class: a list is a sequence
+    clean = [(n, a) for n in (None, "Kayo", "Doe, John", "a  b", "\u00e9") for a in ("a@x.org", "kayo@example.com")]
+    for _ in range(12 if ctx.tier == "quick" else 200):
+        base_l = [rng.choice(clean) for _ in range(rng.randint(1, 6))]
+        dup = list(base_l); dup.insert(rng.randrange(len(dup) + 1), rng.choice(base_l)); dup.append(base_l[0])
+        lists.append(dup)
+    lists += [[clean[0], clean[0]], [clean[2], clean[3], clean[2]], [clean[1]] * 5]
+    # (and long lists from these names only: a list that holds one name of a known class is excused as a whole)
+    lists += [[rng.choice(clean) for _ in range(k)] for k in (3, 7, 20, 50)] * (2 if ctx.tier == "quick" else 20)
     ll = ["mboxes.display\t" + ";".join("%s,%s" % ("!" if n is None else hx(U(n)), hx(U(a))) for n, a in l) for l in lists]
     li, lm = run_impl(ll), run_model(ll)
     ctx.count(len(ll))
@@ -213,6 +222,15 @@ def run(ctx):
     #      and of hostile variations in all three formats httpdate accepts
     secs = [int(l.split("\t")[2]) for l in tl if l.startswith("hdr.rt\tdate")] + [253402300800, 253402300801, 10 ** 12]
     dl2 = ["date.display\t%d" % t for t in secs]
+    # a time with a fraction of a second is written as the second it lies in (cut, not rounded: never a time in the future)
+    sub_l = ["date.display\t%d\t%d" % (t, ns) for t in (0, 951782399, 1700000000, 1709251199, 253402300799) for ns in (1, 499999999, 500000000, 999999999)]
+    sub_i = run_impl(sub_l)
+    sub_m = run_model(["date.display\t%d" % int(l.split("\t")[1]) for l in sub_l])
+    ctx.count(len(sub_l))
+    sub_bad = [(l, a, b) for l, a, b in zip(sub_l, sub_i, sub_m) if a != b]
+    if sub_bad:
+        ctx.violation({"kind": "oracle", "entry": "Date::new on a time with a fraction of a second", "line": sub_bad[0][0], "what": "written as %s, the second it lies in is %s" % (
+            unhx(sub_bad[0][1].split("\t")[1]).decode("latin-1") if "\t" in sub_bad[0][1] else sub_bad[0][1], unhx(sub_bad[0][2].split("\t")[1]).decode("latin-1") if "\t" in sub_bad[0][2] else sub_bad[0][2]), "failures": len(sub_bad)})
     good = ["Tue, 14 Nov 2023 22:13:20 +0000", "Tue, 14 Nov 2023 22:13:20 GMT", "Sunday, 06-Nov-94 08:49:37 GMT", "Sun Nov  6 08:49:37 1994", "Tue, 29 Feb 2000 00:00:00 +0000",
             "Thu, 01 Jan 1970 00:00:00 +0000", "Fri, 31 Dec 9999 23:59:59 +0000", "Monday, 01-Jan-70 00:00:00 GMT", "Thursday, 31-Dec-69 23:59:59 GMT", "Wed Feb 29 12:00:00 2024", "Sat Mar  1 00:00:00 2025"]
     hostile = list(good)
